@@ -133,7 +133,7 @@ def main(chk):
                 chk.violation('C18:compile:%s' % tag, 'grow harness does not build: %s' % r.err[-1500:], {'module.wasm': b})
                 continue
             exes[(li, tag)] = exe
-    nh = 200 if quick else 5000
+    nh = 800 if quick else 5000
     jobs = []
     for k in range(nh):
         r0 = env.rng('c18', k)
